@@ -3,7 +3,12 @@ dimension-reduced `IndexedData`.
 
 Real objects: `glue.core.Data` (stored numeric, categorical, derived, linked through an identity link
 from a second dataset, pixel, world with Identity/Affine coordinates), every `SubsetState` subclass
-found by introspection, `glue.core.data_derived.IndexedData`.
+found by introspection, `glue.core.data_derived.IndexedData`; and (round 3) a second and a third dataset of
+the same number of dimensions whose pixel ids are `LinkSame`-linked to the first one's in every axis order
+(`CrossEnv`: all permutations, one axis left unlinked, longer grids, the third dataset reachable only through
+the second): their pixel / world / derived / value ids and selections defined on them (regions with one, two,
+three attributes, ranges, inequalities, `SliceSubsetState` / `PixelSubsetState` of the other dataset,
+`MaskSubsetState` with the other dataset's ids) are evaluated on the first dataset under every view kind.
 
 Observables: `data[cid]` / `data[cid, view]`, `data.get_mask(state)` / `data.get_mask(state, view)`,
 `IndexedData.get_data / get_mask / compute_statistic / compute_histogram`.  Python never judges: it
@@ -186,7 +191,7 @@ def sampled_basic_views(shape, rng, tier):
     """The whole basic view domain of a shape; for the larger 3-d shapes of the quick tier a seeded
     sample of the full-length tuples (all shorter tuples, bare items, None, Ellipsis are kept)."""
     vs = list(basic_views(shape))
-    limit = 400 if tier == "quick" else 3000
+    limit = 280 if tier == "quick" else 3000
     if len(shape) == 3 and len(vs) > limit + 400:
         short = [v for v in vs if v in ("N", "E") or len(v[1]) < 3]
         long_ = [v for v in vs if v not in ("N", "E") and len(v[1]) == 3]
@@ -279,8 +284,112 @@ def env_for(shape, coords):
     if e is None:
         if len(_ENVS) > 400:
             _ENVS.clear()
-        e = _ENVS[key] = Env(shape, coords)
+        e = _ENVS[key] = CrossEnv(shape, coords) if is_cross(coords) else Env(shape, coords)
     return e
+
+
+# ------------------------------------------------------------------------------------------
+# a second and a third dataset whose pixel axes are LinkSame-linked to the first one's
+# ------------------------------------------------------------------------------------------
+
+def is_cross(coords):
+    return isinstance(coords, str) and coords.startswith("x:")
+
+
+def cross_key(perm, linked, shp, q):
+    """`x:<perm>:<linked flags>:<s|b>:<q>`: axis j of d is axis perm[j] of e (linked only where the flag is 1);
+    e's shape is d's permuted (`s`) or longer on every axis (`b`); axis m of e is axis q[m] of f."""
+    return "x:%s:%s:%s:%s" % ("".join(map(str, perm)), "".join("1" if b else "0" for b in linked), shp,
+                              "".join(map(str, q)))
+
+
+def parse_cross(key):
+    _, perm, linked, shp, q = key.split(":")
+    return [int(c) for c in perm], [c == "1" for c in linked], shp, [int(c) for c in q]
+
+
+class Range1dROI(R.Roi):
+    """A region of one attribute (open interval) for `RoiSubsetStateNd` with a single attribute."""
+
+    def __init__(self, lo, hi):
+        self.lo, self.hi = lo, hi
+
+    def contains(self, x):
+        x = np.asarray(x)
+        return (x > self.lo) & (x < self.hi)
+
+    def defined(self):
+        return True
+
+    def copy(self):
+        return Range1dROI(self.lo, self.hi)
+
+
+class CrossEnv(Env):
+    """`Env` plus `e` (same number of dimensions; pixel axis j of `d` is identity-linked to pixel axis
+    perm[j] of `e` on the flagged axes; affine coordinates, a derived attribute of its pixel ids, a value
+    attribute identity-linked to `d.x`) and `f` (every pixel axis m of `e` linked to axis q[m] of `f`: related
+    to `d` only through `e`).  All in `d`'s DataCollection."""
+
+    def __init__(self, shape, key):
+        Env.__init__(self, shape, "none")
+        self.coords = key
+        perm, linked, shp, q = parse_cross(key)
+        nd = len(shape)
+        self.perm, self.linked, self.q = perm, linked, q
+        esh = [0] * nd
+        for j in range(nd):
+            esh[perm[j]] = shape[j] + (0 if shp == "s" else 1 + (j % 2))
+        fsh = [0] * nd
+        for m in range(nd):
+            fsh[q[m]] = esh[m]
+        self.esh, self.fsh = esh, fsh
+        d, dc = self.d, self.dc
+        e = Data(y=np.arange(int(np.prod(esh)), dtype=float).reshape(esh), label="e",
+                 coords=AffineCoordinates(np.array([[float(x) for x in r] for r in affine_rows(nd)])))
+        e["pz"] = e.pixel_component_ids[0] * 2 + e.pixel_component_ids[nd - 1]
+        f = Data(z=np.zeros(fsh), label="f")
+        dc.append(e)
+        dc.append(f)
+        for j in range(nd):
+            if linked[j]:
+                dc.add_link(LinkSame(d.pixel_component_ids[j], e.pixel_component_ids[perm[j]]))
+        for m in range(nd):
+            dc.add_link(LinkSame(e.pixel_component_ids[m], f.pixel_component_ids[q[m]]))
+        dc.add_link(LinkSame(d.id["x"], e.id["y"]))
+        self.e, self.f = e, f
+        # links[j] = the axis of the other dataset that axis j of d is (None = not linked)
+        self.links_e = [perm[j] if linked[j] else None for j in range(nd)]
+        self.links_f = [q[perm[j]] if linked[j] else None for j in range(nd)]
+        self.Le = sorted(k for k in self.links_e if k is not None)   # linked axes of e
+        self.Lf = sorted(k for k in self.links_f if k is not None)
+        self.aligned = all(linked)
+        for k in self.Le:
+            self.attrs["xpix%d" % k] = (e.pixel_component_ids[k], ["pixelof", self.links_e, k])
+        for k in self.Lf:
+            self.attrs["fpix%d" % k] = (f.pixel_component_ids[k], ["pixelof", self.links_f, k])
+        M = affine_rows(nd)
+        self.xworld = []
+        for k in range(nd):
+            i = nd - 1 - k                       # FITS order
+            try:                                 # derivable on d only if every pixel axis of e that the link
+                d[e.world_component_ids[k]]      # takes (all axes coupled with this one) is linked
+            except Exception:  # noqa  (IncompatibleAttribute)
+                continue
+            desc = None
+            for jf in range(nd):
+                if M[i][jf] == 0:
+                    continue
+                term = ["lin", q_sx(M[i][jf]), q_sx(M[i][nd]) if desc is None else 0, ["pixelof", self.links_e, nd - 1 - jf]]
+                desc = term if desc is None else ["add", desc, term]
+            self.attrs["xworld%d" % k] = (e.world_component_ids[k], desc)
+            self.xworld.append(k)
+        if 0 in self.Le and (nd - 1) in self.Le:
+            self.attrs["xder"] = (e.id["pz"], ["add", ["lin", 2, 0, ["pixelof", self.links_e, 0]], ["pixelof", self.links_e, nd - 1]])
+        self.attrs["xval"] = (e.id["y"], ["linked", self.attrs["stored"][1]])
+
+    def cross_attr_names(self):
+        return [n for n in self.attrs if n[0] in "xf" and n != "x"]
 
 
 def attr_names(nd, coords):
@@ -332,6 +441,8 @@ def build_state(env, name):
     x, cat, pix = d.id["x"], d.id["cat"], d.pixel_component_ids
     xs = env.attrs["stored"][1]
     last = nd - 1
+    if name[0] in "xf" and name not in ("xor_1", "xor_2", "floodfill") and name not in XCOMPOSITES:
+        return build_cross_state(env, name)
     if name == "base":
         return S.SubsetState(), ["base"]
     if name == "range":
@@ -452,8 +563,8 @@ def build_state(env, name):
     if name == "parsed":
         st = ParsedSubsetState(ParsedCommand("{a} > 3", {"a": x}))
         return st, ("measure", st)
-    if name in COMPOSITE_DEFS:
-        op, parts = COMPOSITE_DEFS[name]
+    if name in XCOMPOSITES or name in COMPOSITE_DEFS:
+        op, parts = XCOMPOSITES[name] if name in XCOMPOSITES else COMPOSITE_DEFS[name]
         built = [build_state(env, p) for p in parts]
         if any(b is None for b in built):
             return None
@@ -469,6 +580,155 @@ def build_state(env, name):
             return st, desc
         pyop = {"and": operator.and_, "or": operator.or_, "xor": operator.xor}[op]
         return pyop(sts[0], sts[1]), [op, descs[0], descs[1]]
+    raise KeyError(name)
+
+
+def boxq_sx(bounds):
+    return ["boxq"] + [[half(lo), half(hi)] for lo, hi in bounds]
+
+
+XSLICES = {
+    "a": lambda nd: [slice(1, None)] + [slice(None, None, 2)] * (nd - 1),
+    "b": lambda nd: [slice(None)] * (nd - 1) + [slice(1, 3)],
+    "c": lambda nd: [slice(i, None, 1 + (i % 2)) for i in range(nd)],
+    "d": lambda nd: [slice(0, 2)],                                    # padded by the constructor
+    "e": lambda nd: [slice(-2, None)] + [slice(None, -1)] * (nd - 1),
+}
+XCOMPOSITES = {
+    "xand": ("and", ["xroi2d_0", "slice_a"]),
+    "xor": ("or", ["xslice_a", "xmask"]),
+    "xxor": ("xor", ["xroi1d_0", "roi_pix_a"]),
+    "xinv": ("inv", ["xslice_c"]),
+    "xmor": ("mor", ["xrange_pix0", "fslice_a", "froi2d_0"]),
+    "xand_f": ("and", ["fmask", "xroi_poly"]),
+}
+
+
+def axis_pairs(L):
+    """ordered pairs of different linked axes; a single linked axis is paired with itself"""
+    prs = [(a, b) for a in L for b in L if a != b]
+    return prs or [(L[0], L[0])]
+
+
+def cross_state_names(env, tier="thorough", salt=0):
+    """The selections on the other datasets' ids that can be evaluated on `d` in this environment (quick: two of the
+    ordered axis pairs of the 2-d regions per dataset, rotating with `salt`; every single axis is always there)."""
+    names = _cross_state_names(env)
+    if tier != "quick":
+        return names
+    x2 = [n for n in names if n.startswith("xroi2d_")]
+    f2 = [n for n in names if n.startswith("froi2d_")]
+    keep = set(round_robin(x2, 2, salt)) | set(round_robin(f2, 2, salt + 1))
+    return [n for n in names if n not in x2 + f2 or n in keep]
+
+
+def _cross_state_names(env):
+    nd = len(env.shape)
+    out = []
+    if env.Le:
+        out += ["xrange_pix%d" % i for i in range(len(env.Le))]
+        out += ["xineq_pix", "xineq2", "xrange_val", "xroi_mixed", "xroi_own", "xroi_poly", "xroi_pre", "xroi_xrange"]
+        out += ["xroi1d_%d" % i for i in range(len(env.Le))]
+        out += ["xroi2d_%d" % i for i in range(len(axis_pairs(env.Le)))]
+        out += ["froi2d_%d" % i for i in range(len(axis_pairs(env.Lf)))]
+        out += ["froi_ef", "xmask", "xmask_rev", "fmask", "xand", "xxor", "xmor", "xand_f"]
+        if env.xworld:
+            out += ["xrange_world", "xroi_world"]
+        if "xder" in env.attrs:
+            out += ["xrange_der"]
+        if nd == 3 and env.aligned:
+            out += ["xroi3d", "froi3d"]
+    out += ["xslice_" + v for v in XSLICES] + ["fslice_a", "fslice_c", "xpixelstate", "xor", "xinv"]
+    return [n for n in out if not (n in ("xor",) and not env.Le)]
+
+
+def build_cross_state(env, name):
+    d, e, f = env.d, env.e, env.f
+    nd = len(env.shape)
+    ep, fp = e.pixel_component_ids, f.pixel_component_ids
+    Le, Lf = env.Le, env.Lf
+
+    def pe(k):
+        return ["pixelof", env.links_e, k]
+
+    def pf(k):
+        return ["pixelof", env.links_f, k]
+
+    if name.startswith("xrange_pix"):
+        k = Le[int(name[10:])]
+        return S.RangeSubsetState(0.5, 1.5, ep[k]), ["pred", pe(k), ["range", half(0.5), half(1.5)]]
+    if name == "xineq_pix":
+        return ep[Le[-1]] >= 1, ["pred", pe(Le[-1]), ["cmp", "ge", 1]]
+    if name == "xineq2":
+        return S.InequalitySubsetState(ep[Le[0]], d.pixel_component_ids[0], operator.gt), ["pred2", pe(Le[0]), ["pixel", 0], ["cmp", "gt"]]
+    if name == "xrange_val":
+        return S.RangeSubsetState(3, 9, e.id["y"]), ["pred", env.attrs["xval"][1], ["range", 3, 9]]
+    if name == "xrange_world":
+        k = env.xworld[0]
+        return S.RangeSubsetState(1, 4, e.world_component_ids[k]), ["pred", env.attrs["xworld%d" % k][1], ["range", 1, 4]]
+    if name == "xrange_der":
+        return S.RangeSubsetState(1, 4, e.id["pz"]), ["pred", env.attrs["xder"][1], ["range", 1, 4]]
+    if name.startswith("xroi1d_"):
+        k = Le[int(name[7:])]
+        return S.RoiSubsetStateNd([ep[k]], Range1dROI(0.5, 2.5)), ["predn", [pe(k)], boxq_sx([(0.5, 2.5)])]
+    if name.startswith("xroi2d_") or name.startswith("froi2d_"):
+        own = name[0] == "x"
+        a, b = axis_pairs(Le if own else Lf)[int(name[7:])]
+        bounds = [(0.5, 2.5), (0.5, 1.5)] if int(name[7:]) % 2 == 0 else [(-0.5, 0.5), (0.5, 2.5)]
+        roi = R.RectangularROI(bounds[0][0], bounds[0][1], bounds[1][0], bounds[1][1])
+        pp, pd = (ep, pe) if own else (fp, pf)
+        return S.RoiSubsetState(pp[a], pp[b], roi), ["predn", [pd(a), pd(b)], boxq_sx(bounds)]
+    if name == "xroi_xrange":
+        a, b = axis_pairs(Le)[-1]
+        return (S.RoiSubsetState(ep[a], ep[b], R.XRangeROI(0.5, 1.5)),
+                ["predn", [pe(a), pe(b)], boxq_sx([(0.5, 1.5), (-BIG, BIG)])])
+    if name == "froi_ef":
+        return (S.RoiSubsetState(ep[Le[0]], fp[Lf[-1]], R.RectangularROI(-0.5, 0.5, 0.5, 3.5)),
+                ["predn", [pe(Le[0]), pf(Lf[-1])], boxq_sx([(-0.5, 0.5), (0.5, 3.5)])])
+    if name == "xroi_poly":
+        a, b = axis_pairs(Le)[0]
+        roi = R.PolygonalROI([-0.5, 0.5, 0.5, -0.5], [0.5, 0.5, 2.5, 2.5])
+        return S.RoiSubsetStateNd([ep[a], ep[b]], roi), ["predn", [pe(a), pe(b)], boxq_sx([(-0.5, 0.5), (0.5, 2.5)])]
+    if name == "xroi_pre":
+        a, b = axis_pairs(Le)[-1]
+        roi = R.RectangularROI(0.5, 1.5, 1.5, 4.5)
+        st = S.RoiSubsetStateNd([ep[a], ep[b]], roi, pretransform=lambda u, v: (u + 1, v * 2))
+        return st, ["predn", [pe(a), pe(b)], boxq_sx([(-0.5, 0.5), (0.75, 2.25)])]
+    if name == "xroi_mixed":
+        return (S.RoiSubsetState(ep[Le[-1]], d.id["x"], R.RectangularROI(0.5, 2.5, 1.5, 8.5)),
+                ["predn", [pe(Le[-1]), env.attrs["stored"][1]], boxq_sx([(0.5, 2.5), (1.5, 8.5)])])
+    if name == "xroi_own":
+        # one pixel id of the other dataset and one of this dataset: not all attributes are own pixel ids
+        return (S.RoiSubsetState(ep[Le[0]], d.pixel_component_ids[nd - 1], R.RectangularROI(0.5, 2.5, -0.5, 0.5)),
+                ["predn", [pe(Le[0]), ["pixel", nd - 1]], boxq_sx([(0.5, 2.5), (-0.5, 0.5)])])
+    if name == "xroi_world":
+        k = env.xworld[0]
+        return (S.RoiSubsetState(e.world_component_ids[k], ep[Le[-1]], R.RectangularROI(0.5, 4.5, 0.5, 2.5)),
+                ["predn", [env.attrs["xworld%d" % k][1], pe(Le[-1])], boxq_sx([(0.5, 4.5), (0.5, 2.5)])])
+    if name in ("xroi3d", "froi3d"):
+        pp, pd = (ep, pe) if name[0] == "x" else (fp, pf)
+        roi = R.Projected3dROI(R.RectangularROI(-0.5, 0.5, 0.5, 2.5), np.eye(4))
+        o = [2, 0, 1] if name[0] == "x" else [1, 2, 0]
+        return (S.RoiSubsetState3d(pp[o[0]], pp[o[1]], pp[o[2]], roi),
+                ["predn", [pd(o[0]), pd(o[1]), pd(o[2])], boxq_sx([(-0.5, 0.5), (0.5, 2.5), (-BIG, BIG)])])
+    if name.startswith("xslice_") or name.startswith("fslice_") or name == "xpixelstate":
+        if name == "xpixelstate":
+            from glue.viewers.image.pixel_selection_subset_state import PixelSubsetState
+            st = PixelSubsetState(e, [slice(None)] * (nd - 1) + [slice(1, 2)])
+            links = env.links_e
+        else:
+            ref, links = (e, env.links_e) if name[0] == "x" else (f, env.links_f)
+            st = S.SliceSubsetState(ref, list(XSLICES[name[7:]](nd)))
+        if not env.aligned:
+            return st, ["unrelated"]
+        return st, ["sliceof", list(links)] + [["s", sl.start, sl.stop, sl.step] for sl in st.slices]
+    if name in ("xmask", "fmask", "xmask_rev"):
+        ref, links, L, osh = (e, env.links_e, Le, env.esh) if name[0] == "x" else (f, env.links_f, Lf, env.fsh)
+        ks = list(L) if name != "xmask_rev" else list(L)[::-1]
+        msh = [osh[k] for k in ks]
+        m = (np.arange(int(np.prod(msh))).reshape(msh) % 3 != 1)
+        return (S.MaskSubsetState(m, [ref.pixel_component_ids[k] for k in ks]),
+                ["maskof", list(links), ks, msh, [bool(b) for b in m.ravel().tolist()]])
     raise KeyError(name)
 
 
@@ -557,6 +817,67 @@ def single_element_views(shape, rng, tier):
         cnt = int(np.prod(ish))
         out.append(["a", list(ish), [["r", [rng.randrange(-s, s) for _ in range(cnt)]] for s in shape]])
     return out
+
+
+CROSS_SHAPES = {
+    "quick": [[3], [2, 3], [3, 3], [1, 3], [2, 3, 4], [2, 2, 3], [3, 1, 2]],
+    "thorough": [[3], [4], [2, 3], [3, 2], [3, 3], [1, 3], [4, 2], [2, 3, 4], [3, 4, 2], [2, 2, 3], [3, 1, 2], [2, 2, 2],
+                 [1, 2, 1], [3, 3, 3], [4, 1, 3]],
+}
+
+
+def cross_variants(nd, tier):
+    """Every axis order (all permutations: identity, every swap, both 3-cycles) x {all axes linked & same grid, all
+    axes linked & a longer grid, one axis left unlinked (rotating), thorough: every single axis unlinked / only one
+    axis linked}; the third dataset's order rotates through all permutations as well."""
+    perms = list(itertools.permutations(range(nd)))
+    out = []
+    for i, perm in enumerate(perms):
+        full = [True] * nd
+        variants = [(full, "s"), (full, "b")]
+        if nd >= 2:
+            drops = [i % nd] if tier == "quick" else list(range(nd))
+            for a in drops:
+                variants.append(([j != a for j in range(nd)], "b" if (i + a) % 2 else "s"))
+            if nd == 3 and tier != "quick":
+                variants.append(([j == i % nd for j in range(nd)], "s"))
+        for vi, (linked, shp) in enumerate(variants):
+            q = perms[(i + 2 * vi + 1) % len(perms)]
+            out.append(cross_key(perm, linked, shp, q))
+    return out
+
+
+def cross_views(shape, rng, tier):
+    """(grid views, other views) for the cross-dataset strata.  Grid views (None, Ellipsis, slices only) are the
+    ones a pixel-space shortcut may take: every axis gets a slice that does not start at 0 while the others are
+    whole; the other views have an integer on every axis in turn, all integers, index arrays, masks."""
+    nd = len(shape)
+    full = ["s", None, None, None]
+    grid = ["N", "E", ["b", [["s", 1, None, None]], "x"]]
+    other = [["b", [["i", -1]], "x"]]
+    for j in range(nd):
+        grid.append(["b", [list(full) if a != j else ["s", 1, None, None] for a in range(nd)], "t"])
+        other.append(["b", [list(full) if a != j else ["i", min(1, shape[j] - 1)] for a in range(nd)], "t"])
+    grid.append(["b", [["s", None, None, 2] for _ in range(nd)], "t"])
+    grid.append(["b", [["s", 1, None, 2] if a % 2 == 0 else ["s", None, -1, None] for a in range(nd)], "t"])
+    if nd > 1:
+        grid.append(["b", [["s", 1, 3, None] for _ in range(nd - 1)], "t"])
+        other.append(["b", [["i", 0]] + [["s", 1, None, None] for _ in range(nd - 2)], "t"])
+    other.append(["b", [["i", (s - 1) if a % 2 == 0 else -s] for a, s in enumerate(shape)], "t"])
+    per_axis = [axis_items(n) for n in shape]
+    sl_only = [[it for it in items if it[0] == "s"] for items in per_axis]
+    nrand = 3 if tier == "quick" else 24
+    for _ in range(nrand):
+        k = nd if rng.random() < 0.7 else rng.randint(1, nd)
+        grid.append(["b", [list(rng.choice(sl_only[a])) for a in range(k)], "t"])
+        k = nd if rng.random() < 0.7 else rng.randint(1, nd)
+        items = [list(rng.choice(per_axis[a])) for a in range(k)]
+        if not any(it[0] == "i" for it in items):
+            a = rng.randrange(k)
+            items[a] = ["i", rng.randrange(-shape[a], shape[a])]
+        other.append(["b", items, "t"])
+    other += array_views(shape, rng, 2 if tier == "quick" else 8)
+    return grid, other
 
 
 def view_kind(view):
@@ -679,9 +1000,21 @@ class AttrViews(Base):
     exhaustive = False
     budget_share = 1.5
 
+    def _cross(self, tier, rng, salt):
+        """attributes of a second / third dataset whose pixel axes are linked to this one's in every axis order"""
+        for sh in CROSS_SHAPES[tier]:
+            for key in cross_variants(len(sh), tier):
+                names = env_for(sh, key).cross_attr_names()
+                grid, other = cross_views(sh, rng, tier)
+                for i, v in enumerate(grid + other):
+                    for n in (names if tier != "quick" or len(sh) < 3 else round_robin(names, 4, salt + i)):
+                        yield [list(sh), key, n, v]
+
     def cases(self, tier, rng):
         m = 3 if tier == "quick" else 4
         salt = rng.randrange(1 << 20)
+        # the quick-sized cross-dataset core comes first in both tiers (a family that stops on its budget has run it)
+        yield from self._cross("quick", rng, salt)
         for sh in shapes_upto(3, m):
             nd = len(sh)
             size = int(np.prod(sh))
@@ -695,6 +1028,8 @@ class AttrViews(Base):
                     use = names if (full or view_kind(v) not in ("slices", "mixed", "ints")) else round_robin(names, 2, salt + i)
                     for n in use:
                         yield [list(sh), coords, n, v]
+        if tier != "quick":
+            yield from self._cross(tier, rng, salt)
 
     def run_impl(self, case):
         sh, coords, name, view = case
@@ -734,9 +1069,26 @@ class MaskViews(Base):
     exhaustive = False
     budget_share = 1.6
 
+    def _cross(self, tier, rng, salt):
+        """selections on the ids of a second / third dataset, pixel-linked in every axis order: every selection under
+        every grid view (the views a pixel-space shortcut may take), a rotating part of them under the others"""
+        for sh in CROSS_SHAPES[tier]:
+            for ei, key in enumerate(cross_variants(len(sh), tier)):
+                names = cross_state_names(env_for(sh, key), tier, salt + ei)
+                grid, other = cross_views(sh, rng, tier)
+                for v in grid:
+                    for n in names:
+                        yield [list(sh), key, n, v]
+                per = max(4, len(names) // (5 if tier == "quick" else 2))
+                for i, v in enumerate(other):
+                    for n in round_robin(names, per, salt + i):
+                        yield [list(sh), key, n, v]
+
     def cases(self, tier, rng):
         m = 3 if tier == "quick" else 4
         salt = rng.randrange(1 << 20)
+        # the quick-sized cross-dataset core comes first in both tiers (a family that stops on its budget has run it)
+        yield from self._cross("quick", rng, salt)
         for sh in shapes_upto(3, m):
             nd = len(sh)
             size = int(np.prod(sh))
@@ -757,6 +1109,8 @@ class MaskViews(Base):
                     use = names if (full or view_kind(v) not in ("slices", "mixed", "ints")) else round_robin(names, per, salt + i)
                     for n in use:
                         yield [list(sh), coords, n, v]
+        if tier != "quick":
+            yield from self._cross(tier, rng, salt)
 
     def _eval(self, case):
         sh, coords, name, view = case
@@ -908,13 +1262,44 @@ IDX_STATES = ["range", "range_pix", "ineq_pix", "category", "roi_pix_a", "roi_pi
               "roi_pre", "catmulti", "catroi2d_x"]
 
 
+IDX_CROSS = ["xroi1d_0", "xroi2d_0", "xroi2d_1", "froi2d_0", "xroi_pre", "xslice_a", "xslice_c", "fslice_c", "xmask", "fmask",
+             "xrange_pix0", "xand", "xmor", "xpixelstate", "xroi3d"]
+
+
+def split_name(name):
+    """`state@x:…` = a selection on the ids of a pixel-linked dataset in the cross environment `x:…`"""
+    if "@" in name:
+        n, key = name.split("@", 1)
+        return n, key
+    return name, "none"
+
+
 class IdxMask(IndexedBase):
     """`IndexedData.get_mask(state, view)` for every index tuple, before and after a change of indices."""
     name = "idxmask"
     budget_share = 1.6
 
+    def _cross(self, tier, rng):
+        """the parent's selections are defined on the ids of a second / third dataset pixel-linked in every order"""
+        for sh in ([[2, 3], [2, 3, 4]] if tier == "quick" else [[2, 3], [3, 3], [2, 3, 4], [2, 2, 3]]):
+            for ei, key in enumerate(cross_variants(len(sh), tier)):
+                avail = cross_state_names(env_for(sh, key))
+                names = [n for n in IDX_CROSS if n in avail]
+                for xi, ix in enumerate(index_tuples(sh)):
+                    rsh = reduced_shape(sh, ix)
+                    ix1 = changed_indices(ix, sh, rng)
+                    vs = self._views(rsh, rng, tier)
+                    if tier == "quick" and len(vs) > 5:
+                        vs = vs[:2] + [vs[i] for i in sorted(rng.sample(range(2, len(vs)), 3))]
+                    for i, v in enumerate(vs):
+                        for n in round_robin(names, 2 if tier == "quick" else 3, i + xi * 3 + ei):
+                            yield [list(sh), ix, ix1, n + "@" + key, v]
+
     def cases(self, tier, rng):
         m = 3 if tier == "quick" else 4
+        yield from self._cross("quick", rng)
+        if tier != "quick":
+            yield from self._cross(tier, rng)
         for sh in shapes_upto(3, m):
             nd = len(sh)
             names = [n for n in IDX_STATES if n in applicable_states(nd, "none")]
@@ -928,7 +1313,8 @@ class IdxMask(IndexedBase):
 
     def run_impl(self, case):
         sh, ix0, ix1, name, view = case
-        env = env_for(sh, "none")
+        name, key = split_name(name)
+        env = env_for(sh, key)
         st, desc = build_state(env, name)
         idd = IndexedData(env.d, tuple(ix0))
         self._keep = (idd, st)
@@ -949,7 +1335,8 @@ class IdxMask(IndexedBase):
         sh, ix0, ix1, name, view = case
         desc = getattr(self, "_desc", None)
         if desc is None:
-            env = env_for(sh, "none")
+            name, key = split_name(name)
+            env = env_for(sh, key)
             desc = resolve_desc(env, build_state(env, name)[1])
         self._desc = None
         return sx(["idxmask", [sh, ix0, ix1, desc, view_sx(view)], pyout])
@@ -958,7 +1345,7 @@ class IdxMask(IndexedBase):
         return any(i is not None for i in case[1])
 
     def signature(self, case, po, res):
-        return {"state": case[3].rstrip("0123456789").rstrip("_"), "view": view_kind(case[4])}
+        return {"state": split_name(case[3])[0].rstrip("0123456789").rstrip("_"), "view": view_kind(case[4])}
 
     def shrink(self, case):
         sh, ix0, ix1, name, view = case
@@ -1111,7 +1498,8 @@ THEOREMS = ["C04." + t for t in (
     "index_tabulate viewPoints_in_range pixel_view_values pixel_view attr_view attr_view_values derived_view world_view "
     "roi_pixel_shortcut_values roi_pixel_shortcut_view slice_state_view slice_state_values mask_state_view "
     "mask_state_general_view element_state_view state_view state_view_values "
-    "chunked_roi_scalar_view_pinned_raises loop1d_scalar_view_pinned_raises indexed_get indexed_pixel indexed_mask "
+    "chunked_roi_scalar_view_pinned_raises loop1d_scalar_view_pinned_raises cross_pixel_axis_map "
+    "cross_pixel_axis_forward_wrong cross_roi_shortcut_inverse_ok cross_roi_view cross_slice_view cross_slice_point cross_mask_view indexed_get indexed_pixel indexed_mask "
     "indexed_after_reindex indexed_histogram_selection").split()]
 
 PROP = Property(
@@ -1126,6 +1514,9 @@ PROP = Property(
     rule="shapes <= 3-d with dims <= 3 (quick) / 4 (thorough) x the whole basic view domain (one raw slice per distinct selection of "
          "each axis plus alternative spellings, every integer incl. negative ones, every tuple length <= ndim, bare items, None, "
          "Ellipsis) + seeded tuples of index arrays and Boolean masks, x every attribute kind x every selection class found by "
-         "introspection; IndexedData for every index tuple and a change of indices; non-trivial = a view other than None/Ellipsis "
+         "introspection; the same for attributes and selections defined on the ids of a second / third dataset pixel-linked in "
+         "every axis order (all permutations of <= 3 axes, partial links, longer grids; shapes up to [2,3,4]) under every view "
+         "kind, every selection under every slices-only view; IndexedData for every index tuple and a change of indices; "
+         "non-trivial = a view other than None/Ellipsis "
          "(reduced datasets: at least one axis removed)",
 )
